@@ -1,1 +1,2 @@
 pub mod histx;
+pub mod schedx;
